@@ -34,7 +34,8 @@ import (
 // scenario description (also the replay format)
 
 type Op struct {
-	Kind    string `json:"kind"`              // add | remove | list | open | probe
+	Kind    string `json:"kind"`              // add | remove | list | open | probe | frame
+	Frame   string `json:"frame,omitempty"`   // frame: "withdraw" | "advertise" (a foreign routing frame naming THIS agent as origin for Network)
 	Network string `json:"network,omitempty"` // add / remove
 	Metric  uint16 `json:"metric,omitempty"`
 	// open / probe
@@ -64,6 +65,9 @@ type Storm struct {
 	Goroutines int      `json:"goroutines"`
 	Rounds     int      `json:"rounds"`
 	Dest       string   `json:"dest"` // a dialable destination inside the network
+	// Fill dynamic routes (10.x.y.0/24) are added before the storm, so the
+	// allow list is long while the concurrent adds scan it
+	Fill int `json:"fill,omitempty"`
 }
 
 // ---------------------------------------------------------------------------
@@ -158,6 +162,7 @@ type env struct {
 
 	totalAcks int
 	coq       []string
+	frameSeq  uint64
 }
 
 const (
@@ -302,6 +307,34 @@ func (e *env) runScenario(sc Scenario) {
 			if kind == "ROk" {
 				nontrivial = true
 			}
+		case "frame":
+			// a peer sends a crafted / replayed routing frame that names this
+			// agent as the origin of op.Network. It may change the routing
+			// table but is no route-management operation: dynamic routes and
+			// the permitted set must stay as they are (the model treats it
+			// like "list": no effect on the policy state).
+			e.frameSeq++
+			if _, n, err := net.ParseCIDR(op.Network); err == nil {
+				fam, prefix := protocol.AddrFamilyIPv4, []byte(n.IP.To4())
+				if prefix == nil {
+					fam, prefix = protocol.AddrFamilyIPv6, []byte(n.IP.To16())
+				}
+				ones, _ := n.Mask.Size()
+				rt := protocol.Route{AddressFamily: fam, PrefixLength: uint8(ones), Prefix: prefix, Metric: 1}
+				fr := &protocol.Frame{StreamID: 0}
+				if op.Frame == "withdraw" {
+					fr.Type = protocol.FrameRouteWithdraw
+					fr.Payload = (&protocol.RouteWithdraw{OriginAgent: a.ID(), Sequence: 1<<40 + e.frameSeq, Routes: []protocol.Route{rt}}).Encode()
+				} else {
+					fr.Type = protocol.FrameRouteAdvertise
+					fr.Payload = (&protocol.RouteAdvertise{OriginAgent: a.ID(), Sequence: 1<<40 + e.frameSeq, Routes: []protocol.Route{rt}, Path: []identity.AgentID{e.peer}}).Encode()
+				}
+				a.VerifProcessFrame(e.peer, fr)
+				attach()
+			}
+			c.Count("frame:" + op.Frame)
+			coqOp = "OpList"
+			coqObs = "ObsNone"
 		case "list":
 			coqOp = "OpList"
 			coqObs = "ObsNone" // the dynamic table is part of every snapshot below
@@ -568,6 +601,8 @@ func describe(op Op) string {
 	switch op.Kind {
 	case "add", "remove":
 		return fmt.Sprintf("%s %s", op.Kind, op.Network)
+	case "frame":
+		return fmt.Sprintf("foreign %s frame for %s", op.Frame, op.Network)
 	case "open", "probe":
 		if op.AddrType == protocol.AddrTypeDomain {
 			return fmt.Sprintf("%s name %q", op.Kind, string(op.Addr))
@@ -630,6 +665,12 @@ func (e *env) runStorm(sc Scenario) {
 			a.ManageRoute("remove", st.Forms[0], 0)
 		}
 		attach()
+	}
+	for i := 0; i < st.Fill; i++ {
+		if _, err := a.ManageRoute("add", fmt.Sprintf("10.%d.%d.0/24", i/256, i%256), 1); err != nil {
+			c.Fail("storm-fill-failed", err.Error(), sc)
+			return
+		}
 	}
 	var lastMetric uint16
 	var allowAfterAdds, dynAfterAdds string
@@ -701,6 +742,12 @@ func (e *env) runStorm(sc Scenario) {
 				}
 			}
 		}
+	}
+	if st.Fill > 0 {
+		// monitor-only scenario (the filler routes are not replayed in the model)
+		c.Case(sc.Name, true, sc)
+		e.coq = append(e.coq, "(mkCfg false [] [], [])")
+		return
 	}
 	allowEnd, dynEnd := snapshot(a)
 	p := parseCIDRText(st.Forms[0])
